@@ -148,6 +148,19 @@ func OpenDSN(rec *Recorder, dsn string) *sql.DB {
 	return sql.OpenDB(&connector{dsn: dsn, rec: rec, drv: &sqlite3.SQLiteDriver{}})
 }
 
+// OpenDSNPragmas is OpenDSN with PRAGMA statements executed on every new connection.
+func OpenDSNPragmas(rec *Recorder, dsn string, pragmas ...string) *sql.DB {
+	d := &sqlite3.SQLiteDriver{ConnectHook: func(c *sqlite3.SQLiteConn) error {
+		for _, p := range pragmas {
+			if _, err := c.Exec(p, nil); err != nil {
+				return err
+			}
+		}
+		return nil
+	}}
+	return sql.OpenDB(&connector{dsn: dsn, rec: rec, drv: d})
+}
+
 type conn struct {
 	inner *sqlite3.SQLiteConn
 	rec   *Recorder
